@@ -1,5 +1,6 @@
 """C20 - UpdateLazy is a faithful recursive object merge."""
 import os
+import subprocess
 import sys
 sys.path.insert(0, os.path.dirname(os.path.dirname(os.path.abspath(__file__))))
 from gen import mergegen as MG
@@ -30,6 +31,7 @@ LEVEL_TEXT = ("Machine-checked proof (Lean 4, C20_model_eq_spec): for every pair
 LEVEL_NOTE = "Trusted: Lean kernel; standard axioms; compiled Lean evaluation; harness; sanitizers."
 TECHNIQUE = "Lean 4 spec + model theorems; differential correspondence against the statement-derived merge"
 
+_DRIVER = os.path.join(os.path.dirname(os.path.dirname(os.path.abspath(__file__))), "lean/.lake/build/bin/sonic_model")
 KINDS = [b"null", b"true", b"1", b'"s"', b"[1,2]", b"{}", b'{"a":1,"b":{"c":2}}']
 
 
@@ -66,11 +68,11 @@ def judge(case, mo, io, cfg):
         if i.get("out") == m.get("out"):
             rep = m.get("reparse")
         else:
-            rep = None
-        if rep is not None and rep != "ok:" + spec:
+            # judge the implementation's own bytes with the spec parser (driver as oracle)
+            o = subprocess.run([_DRIVER], input=f"parse pool {i.get('out', '-')}\n", capture_output=True, text=True).stdout.strip()
+            rep = o.rpartition("spec=")[2]
+        if rep != "ok:" + spec:
             return ("violation", f"UpdateLazy result does not denote the merge of the two values: result parses to {rep[:160]}, expected {spec[:160]} for `{case['lines'][0][:200]}`")
-        if rep is None:
-            return ("drift", f"model and implementation produce different bytes (implementation's output not yet judged): model={m.get('out', '')[:120]} impl={i.get('out', '')[:120]}")
     if i.get("out") != m.get("out"):
         return ("drift", f"model and implementation produce different bytes: model={m.get('out', '')[:120]} impl={i.get('out', '')[:120]}")
     return None
